@@ -143,7 +143,7 @@ Canon(fn) == CASE fn \in {"==", "eq", "equal"} -> "equal"
 \* functions documented to modify their target
 Mutators == {"set", "setall", "del", "delall", "append"}
 \* functions with a clause in Apply/Call below; every other function is Opaque
-Specified == {"at", "root", "asm", "set", "setall", "get", "getall", "del", "delall", "cond", "and", "or", "not", "equal", "neq",
+Specified == {"each", "at", "root", "asm", "set", "setall", "get", "getall", "del", "delall", "cond", "and", "or", "not", "equal", "neq",
               "lt", "lte", "gt", "gte", "sum", "dif", "product", "quotient", "mod", "list", "map?", "array?", "string?",
               "num?", "bool?", "null?", "size", "nth", "append", "reverse", "sort", "quote"}
 
@@ -290,7 +290,10 @@ Contains(v, x) == \/ v = x
                   \/ (v.t = "arr" /\ \E j \in 1..Len(v.v) : Contains(v.v[j], x))
                   \/ (v.t = "obj" /\ \E y \in DOMAIN v.m : Contains(v.m[y], x))
 Mutate(f, args, root, at) ==
-  LET need == IF f \in {"set", "setall"} THEN 2 ELSE 1 IN
+  LET need == IF f \in {"set", "setall"} THEN 2 ELSE 1
+      \* a container LITERAL of the plan denotes a value: every evaluation yields it anew (otherwise a plan would not give
+      \* the same result on every run), so storing it shares nothing; containers that come from paths or calls may share
+      FreshLit == need = 2 /\ Len(args) = 2 /\ args[2].t \in {"arr", "obj"} IN
   IF Len(args) # need THEN AnyR
   ELSE IF args[1].t \notin {"path", "call"} \/ (args[1].t = "call" /\ need = 1) THEN AnyR
   ELSE LET pr == PathArg(args[1], root, at) IN     \* the path is given literally or computed by a nested call (root / at)
@@ -305,10 +308,20 @@ Mutate(f, args, root, at) ==
        ELSE IF need = 2 /\ Contains(rv.v, rv.root) THEN AnyR
        ELSE IF need = 2 /\ rv.v.t \in {"arr", "obj"} /\ \E j \in 0..(Len(p.fr) - 1) : Look(rv.root, SubSeq(p.fr, 1, j)) = rv.v
             THEN AnyR                                               \* a container stored inside itself (if not copied: a cycle)
-       ELSE IF p.at /\ rv.at.mode # "root" THEN AnyR                \* mutation through a detached local value
+       ELSE IF p.at /\ rv.at.mode = "det" THEN AnyR                 \* mutation through a detached local value
+       ELSE IF p.at /\ rv.at.mode = "loc" THEN
+            \* the local context of an each iteration: a fresh map {src: element}.  Its own members are the iteration's
+            \* scratch space (value semantics); the element under src may be data under $.src, so going below it is "any"
+            IF Len(p.fr) >= 2 /\ p.fr[1].k = "c" /\ p.fr[1].s = "src" THEN AnyR
+            ELSE IF need = 2 /\ Contains(rv.v, rv.at.v) THEN AnyR
+            ELSE IF need = 2 /\ rv.v.t \in {"arr", "obj"} /\ \E j \in 1..(Len(p.fr) - 1) : Look(rv.at.v, SubSeq(p.fr, 1, j)) = rv.v THEN AnyR
+            ELSE LET r == IF need = 2 THEN Put(rv.at.v, p.fr, rv.v) ELSE Del(rv.at.v, p.fr) IN
+                 IF r.k # "ok" THEN [k |-> r.k]
+                 ELSE LET at2 == [rv.at EXCEPT !.v = r.v, !.al = @ \/ (need = 2 /\ rv.v.t \in {"arr", "obj"} /\ ~FreshLit)] IN
+                      [k |-> "ok", v |-> at2.v, isAt |-> TRUE, root |-> rv.root, at |-> at2]
        ELSE LET r == IF need = 2 THEN Put(rv.root, p.fr, rv.v) ELSE Del(rv.root, p.fr) IN
             IF r.k # "ok" THEN [k |-> r.k]
-            ELSE LET at2 == [rv.at EXCEPT !.al = @ \/ (need = 2 /\ rv.v.t \in {"arr", "obj"})] IN
+            ELSE LET at2 == [rv.at EXCEPT !.al = @ \/ (need = 2 /\ rv.v.t \in {"arr", "obj"} /\ ~FreshLit)] IN
                  [k |-> "ok", v |-> AtVal(r.v, at2), isAt |-> TRUE, root |-> r.v, at |-> at2]
 
 Eval(n, root, at) ==
@@ -328,7 +341,8 @@ Eval(n, root, at) ==
                 ELSE IF at.mode = "root" THEN [r EXCEPT !.at = [at EXCEPT !.al = r.at.al]]
                 ELSE AnyR
            [] f \in {"set", "setall", "del", "delall"} -> Mutate(f, n.a, root, at)
-           [] f = "cond" -> IF \E j \in 1..Len(n.a) : HasMut(n.a[j]) THEN AnyR ELSE Cond(n.a, root, at)
+           \* (LISP cond: tests in order, the value of the first true one; later clauses are not evaluated)
+           [] f = "cond" -> Cond(n.a, root, at)
            [] f = "quote" ->
                 IF n.a = <<>> THEN Ok(Null, root, at)
                 ELSE IF n.a[1].t \in ValueTags THEN Ok(n.a[1], root, at) ELSE AnyR
@@ -374,6 +388,33 @@ Eval(n, root, at) ==
                 ELSE IF \E j \in 1..Len(e.vs) : e.vs[j].t \notin ValueTags THEN AnyR
                 ELSE LET r == Apply(f, e.vs) IN
                      IF r.k # "ok" THEN r ELSE Ok(r.v, e.root, e.at)
+           \* each: the description string is just "Each .": the semantics is the one the package's own examples/tests show:
+           \* [each list fn key?]: for every element, in order, fn is evaluated with a FRESH local context @ = {src: element}
+           \* (nothing else in it); the result is the list of the values found under key (default "asm") afterwards.
+           \* Specified when the body mutates only its local context (a body that changes the root may change the list
+           \* it is iterating over: "any").
+           [] f = "each" ->
+                IF Len(n.a) \notin {2, 3} \/ n.a[2].t # "call" THEN AnyR
+                ELSE IF \E j \in 1..Len(MutCalls(n.a[2])) : ~(MutCalls(n.a[2])[j].a # <<>> /\ MutCalls(n.a[2])[j].a[1].t = "path" /\ MutCalls(n.a[2])[j].a[1].at)
+                     THEN AnyR
+                ELSE LET l == Eval(n.a[1], root, at) IN
+                IF l.k # "ok" THEN [k |-> l.k]
+                ELSE IF l.v.t # "arr" THEN AnyR
+                ELSE LET kk == IF Len(n.a) = 3 THEN Eval(n.a[3], l.root, l.at) ELSE Ok(Str(Names["asm"]), l.root, l.at) IN
+                IF kk.k # "ok" THEN [k |-> kk.k]
+                ELSE IF kk.v.t # "str" \/ NameOf(kk.v.v) = "" THEN AnyR
+                ELSE LET key == NameOf(kk.v.v)
+                         RECURSIVE Iter(_, _, _, _)
+                         Iter(j, rt, al, acc) ==
+                           IF j > Len(l.v.v) THEN [k |-> "ok", vs |-> acc, root |-> rt, al |-> al]
+                           ELSE LET r == Eval(n.a[2], rt, [mode |-> "loc", v |-> Obj([src |-> l.v.v[j]]), al |-> al]) IN
+                                IF r.k # "ok" THEN [k |-> r.k]
+                                ELSE IF r.at.mode # "loc" THEN AnyR
+                                ELSE Iter(j + 1, r.root, r.at.al,
+                                          Append(acc, IF key \in DOMAIN r.at.v.m THEN r.at.v.m[key] ELSE Null))
+                         it == Iter(1, kk.root, kk.at.al, <<>>) IN
+                     IF it.k # "ok" THEN [k |-> it.k]
+                     ELSE Ok(Arr(it.vs), it.root, [kk.at EXCEPT !.al = it.al])
            [] OTHER -> AnyR      \* Opaque(fn)
     [] OTHER -> AnyR
 
